@@ -141,6 +141,11 @@ def features(steps):
         elif k == "bookmark":
             feats.add(("C", "bookmark"))
             disconnected = False
+        elif k == "listpart":
+            first = sorted(cur)[0] if cur else None
+            feats.add(("C", "listpart", coarse(seen.get(first)), coarse(cur.get(first)), any(offerable(o) for n, o in seen.items() if n != first)))
+            if first is not None:
+                seen[first] = cur[first]
         elif k == "listfail":
             feats.add(("C", "listfail", "first" if not seen else "relist", any(offerable(o) for o in seen.values())))
     return feats
@@ -157,9 +162,18 @@ def select(pool, count, seed):
     rng.shuffle(pool)
     fs = [features(h["steps"]) for h in pool]
     chosen, covered, left = [], set(), set(range(len(pool)))
+    # the greedy cover only ever needs ONE history per distinct feature set (the first in the shuffled order)
+    reps, seen_fs = [], set()
+    for i, f in enumerate(fs):
+        k = frozenset(f)
+        if k not in seen_fs:
+            seen_fs.add(k)
+            reps.append(i)
     while left and len(chosen) < count:
         best, gain = None, 0
-        for i in left:
+        for i in reps:
+            if i not in left:
+                continue
             g = sum(weight(f) for f in fs[i] - covered)
             if g > gain:
                 best, gain = i, g
@@ -206,7 +220,7 @@ def run(prop, tier):
         def simulate(c):
             try:
                 sims[c] = vlib.run_tlc("MC_Agones", c, wd, workers=2 if tier == "quick" else 4, timeout=1800,
-                                       simulate=cfg["sim"], depth=cfg["depth"], extra=["-seed", str(seed)])
+                                       simulate=cfg["sim"], depth=cfg["depth"], extra=["-seed", str(seed)], dedupe=True)
             except Exception as e:  # noqa
                 sims[c] = e
 
@@ -231,17 +245,18 @@ def run(prop, tier):
             sim_generated += sim_states(sim.output)
             sim_notes.append("%s -simulate %s: %d states, %d histories exported, %.1fs" % (c, cfg["sim"], sim_states(sim.output), len(pool) - before, sim.wall))
         # ... and every history of the small directed configuration (exhaustive, not a random walk): the corner cases are all in the pool
-        dr = vlib.run_tlc("MC_Agones", "MC_AgonesDirected.cfg", wd, workers=4, timeout=1800)
-        if not dr.ok:
-            raise vlib.ToolError("TLC reports %s on MC_AgonesDirected.cfg (specification error):\n%s" % (dr.violated, dr.output[-3000:]))
-        before = len(pool)
-        for h in dr.marked["REPLAY"]:
-            key = json.dumps(h, sort_keys=True)
-            if key not in seen:
-                seen.add(key)
-                pool.append(h)
-        sim_generated += dr.generated
-        sim_notes.append("MC_AgonesDirected.cfg (exhaustive): %s, %d histories exported, %.1fs" % (dr.summary(), len(pool) - before, dr.wall))
+        for dcfg in ("MC_AgonesDirected.cfg", "MC_AgonesDirected2.cfg"):
+            dr = vlib.run_tlc("MC_Agones", dcfg, wd, workers=6, timeout=1800, dedupe=True)
+            if not dr.ok:
+                raise vlib.ToolError("TLC reports %s on %s (specification error):\n%s" % (dr.violated, dcfg, dr.output[-3000:]))
+            before = len(pool)
+            for h in dr.marked["REPLAY"]:
+                key = json.dumps(h, sort_keys=True)
+                if key not in seen:
+                    seen.add(key)
+                    pool.append(h)
+            sim_generated += dr.generated
+            sim_notes.append("%s (exhaustive): %s, %d histories exported, %.1fs" % (dcfg, dr.summary(), len(pool) - before, dr.wall))
         if not pool:
             raise vlib.ToolError("TLC exported no history")
         sel, ncov, nall = select(pool, cfg["histories"], seed)
@@ -332,7 +347,7 @@ def run(prop, tier):
                 "step of every replayed history is judged by TLC (Trace_Agones) against the clauses of spec/AgonesProps.tla; evaluations = judged steps; "
                 "distinct = distinct normalised histories" % (" and ".join(cfg["mc"]), cfg["sim"], seed, len(sel), len(pool), ncov, nall),
         "exhaustive": False,
-        "replayed_histories_with_step": {k: sum(1 for h in sel if any(st["k"] == k for st in h["steps"])) for k in ("list", "gone", "drop", "bookmark", "listfail", "delete")},
+        "replayed_histories_with_step": {k: sum(1 for h in sel if any(st["k"] == k for st in h["steps"])) for k in ("list", "gone", "drop", "bookmark", "listfail", "listpart", "churn", "delete")},
         "replayed_histories_with_empty_relist": sum(1 for h in sel if any(f[:2] == ("C", "relist-size") and f[2] == 0 and f[3] for f in features(h["steps"]))),
         "tlc": ["%s: %s, %.1fs" % (c, r.summary(), r.wall) for c, r in zip(cfg["mc"], mc["r"])] + sim_notes + [
                 "Trace_Agones: %d records judged in %.1fs" % (len(observed), tr.wall)],
